@@ -12,7 +12,7 @@ PROP = "C18"
 NEED_JSONSCHEMA = True
 SHARDS = {"quick": 8, "thorough": 16}
 TIME_CAP = {"quick": 70, "thorough": 900}
-REQUIRED = ["oas30_value_shape_walks", "all_refs_programs", "per_call_schema_programs", "semantic_comparisons", "vocabulary_walks", "programs", "version:DRAFT_2019_09", "version:DRAFT_7", "version:OPEN_API_3_0", "version:OPEN_API_3_1",
+REQUIRED = ["bound_pair_programs", "oas30_value_shape_walks", "all_refs_programs", "per_call_schema_programs", "semantic_comparisons", "vocabulary_walks", "programs", "version:DRAFT_2019_09", "version:DRAFT_7", "version:OPEN_API_3_0", "version:OPEN_API_3_1",
             "kw:prefixItems-source", "kw:dependentRequired-source", "kw:const-source", "kw:$defs-source", "kw:type-array-source", "nested_positions_walked", "merged_definitions_walks"]
 RULE = ("program space of C17 (every keyword the builder emits: tuples/prefixItems, const/enum, type arrays, dependentRequired, patternProperties, unevaluatedProperties, "
         "$defs/$ref, anyOf/oneOf/allOf, nested in properties / items / $defs / additionalProperties) x versions {2019-09, draft-07, OpenAPI 3.0, OpenAPI 3.1} x "
@@ -221,8 +221,45 @@ def check_program(env, prog, label, ndata):
     env.count("programs")
 
 
+BOUND_POOL = [{"min": 0}, {"exc_min": 0}, {"max": 10}, {"exc_max": 10}, {"min": 1}, {"exc_min": 1}, {"max": 9}, {"exc_max": 9}, {"min": 0, "max": 10}, {"exc_min": 0, "exc_max": 10},
+              {"min": 0, "exc_max": 10}, {"exc_min": 0, "max": 10}]
+
+
+def bounds_sweep(env):
+    """every ordered pair of inclusive / exclusive bound sets merged on one number (ties included: minimum == exclusiveMinimum):
+    OpenAPI 3.0 rewrites exclusive bounds as boolean modifiers of minimum / maximum, the other dialects keep both keywords"""
+    from vf.spec import Ann, Coll, Prim
+
+    k = 0
+    for base in ("int", "float"):
+        for inner in BOUND_POOL:
+            for outer in [None] + BOUND_POOL:
+                if outer is not None and set(inner) & set(outer):
+                    continue  # the same keyword twice is the merge rule of C01 (stricter wins); here: distinct keywords side by side
+                k += 1
+                if k % env.nshards != env.shard:
+                    continue
+                t = Ann(Prim(base), dict(inner))
+                if outer is not None:
+                    t = Ann(t, dict(outer))
+                if k % 3 == 0:
+                    t = Coll("list", t)
+                prog = Program(t)
+                try:
+                    prog.load()
+                except Exception:
+                    env.count("program_load_failed")
+                    continue
+                try:
+                    check_program(env, prog, f"bounds#{k}", ndata=24)
+                    env.count("bound_pair_programs")
+                finally:
+                    prog.unload()
+
+
 def run(env):
     harness.tag_errors(False)
+    bounds_sweep(env)
     rng = env.rng
     n = env.n(420, 12000)
     for j in range(n):
